@@ -133,14 +133,26 @@ class FsRun:
             rec.update(ok=False, err="%s: %s" % (type(e).__name__, str(e)[:80]))
         return rec
 
-    def reader_pass(self, rid, reader_box, digital_rf, fresh):
-        """one pass of a (possibly long-lived) DigitalRFReader: bounds + read of everything + listing"""
+    def reader_pass(self, rid, reader_box, digital_rf, fresh, archive=False):
+        """one pass of a (possibly long-lived) DigitalRFReader: bounds + read of everything + listing.
+        archive=True: the reader is opened on two top-level directories, an archive holding the same channel (its
+        properties file, no data files left) and the live one"""
         cc = self.cc
+        tops = self.top
+        if archive:
+            arch = os.path.join(self.root, "archive")
+            prop = os.path.join(self.chdir, "drf_properties.h5")
+            aprop = os.path.join(arch, "ch", "drf_properties.h5")
+            if os.path.exists(prop) and not os.path.exists(aprop):
+                os.makedirs(os.path.join(arch, "ch"), exist_ok=True)
+                shutil.copy(prop, aprop)
+            if os.path.exists(aprop):
+                tops = [arch, self.top]
         ev = dict(ev="rpass", r=rid, fresh=fresh, ok=True, nochannel=False, blocks=[], data=[], fill=[], bad=0, has=False, first=0, last=0)
         try:
             if reader_box[0] is None:
                 try:
-                    reader_box[0] = digital_rf.DigitalRFReader(self.top)
+                    reader_box[0] = digital_rf.DigitalRFReader(tops)
                 except ValueError as e:
                     # "no channels found": allowed before the channel exists
                     ev["nochannel"] = True
